@@ -52,36 +52,32 @@ theorem heterogeneous_Erhg_strictAnti {v1 v2 Dp d eps nu rhol rhos Cvs : ℝ} (s
   have t2 : 2320 < homogeneous.pipe_reynolds_number v2 Dp nu := lt_of_lt_of_le (by norm_num) h2.reynolds_ge
   -- potential-energy term: A / v with A ≥ 0
   have hShr : heterogeneous.Shr v2 Dp d eps nu rhol rhos Cvs ≤ heterogeneous.Shr v1 Dp d eps nu rhol rhos Cvs := by
-    unfold heterogeneous.Shr
-    simp only [Transc.rpow, pyMax_eq_max]
+    rw [Shr_canon, Shr_canon]
+    simp only [pyMax_eq_max]
     apply div_le_div_of_nonneg_left _ h1.vls_pos h12.le
-    exact mul_nonneg hvt.le (Real.rpow_nonneg (le_max_of_le_right (by norm_num)) _)
+    exact mul_nonneg hvt.le (Real.rpow_nonneg (le_max_of_le_right (le_refl 0)) _)
   -- kinetic term: K · (1/λ) · (m/v)², strictly decreasing
   have hSrs : heterogeneous.Srs v2 Dp d eps nu rhol rhos sq < heterogeneous.Srs v1 Dp d eps nu rhol rhos sq := by
-    unfold heterogeneous.Srs
-    simp only [Transc.rpow, Transc.npow, sci_one]
+    rw [Srs_canon, Srs_canon]
     rw [swamee_jain_as_Lv v1 Dp eps nu h1.vls_pos hD hn t1, swamee_jain_as_Lv v2 Dp eps nu h2.vls_pos hD hn t2]
     set c1 := eps / (3.7 * Dp)
     set k := 5.75 * (nu / Dp) ^ (0.9:ℝ)
     have hc1 : 0 ≤ c1 := by have := h1.eps_pos; positivity
     have hk : 0 < k := by have := Real.rpow_pos_of_pos (div_pos hn hD) (0.9:ℝ); positivity
     have hanti := Lsq_div_sq_strictAnti c1 k v1 v2 hc1 hk h1.vls_pos h12 h1.log_arg_small
-    have hm : 0 < (nu * (Cst.gravity : ℝ)) ^ ((1:ℝ) / 3.0) := Real.rpow_pos_of_pos (by positivity) _
-    have e : ∀ (X L v : ℝ), (8.5:ℝ) ^ 2 * (1 / (1.325 / L ^ 2)) * X * ((nu * (Cst.gravity : ℝ)) ^ ((1:ℝ) / 3.0) / v) ^ 2
-        = ((8.5:ℝ) ^ 2 / 1.325 * X * ((nu * (Cst.gravity : ℝ)) ^ ((1:ℝ) / 3.0)) ^ 2) * (L ^ 2 / v ^ 2) := by
+    have hm : 0 < (nu * (Cst.gravity : ℝ)) ^ ((1:ℝ) / 3) := Real.rpow_pos_of_pos (by positivity) _
+    have e : ∀ (X L v : ℝ), (8.5:ℝ) ^ 2 / (1.325 / L ^ 2) * X * ((nu * (Cst.gravity : ℝ)) ^ ((1:ℝ) / 3) / v) ^ 2
+        = ((8.5:ℝ) ^ 2 / 1.325 * X * ((nu * (Cst.gravity : ℝ)) ^ ((1:ℝ) / 3)) ^ 2) * (L ^ 2 / v ^ 2) := by
       intro X L v; field_simp
-    split_ifs with hq
-    · rw [e, e]
-      have hX' : 0 < (heterogeneous.vt_ruby d ((rhos - rhol) / rhol) nu 0.26 / ((Cst.gravity : ℝ) * d) ^ (0.5:ℝ)) ^ ((10.0:ℝ) / 3.0) :=
-        Real.rpow_pos_of_pos (div_pos hvt (Real.rpow_pos_of_pos (by positivity) _)) _
-      exact mul_lt_mul_of_pos_left hanti (by positivity)
-    · rw [e, e]
-      have hs := sqrtcx_pos _ d hvt hd
-      have hX' : 0 < (1 / heterogeneous.sqrtcx (heterogeneous.vt_ruby d ((rhos - rhol) / rhol) nu 0.26) d) ^ (3.0:ℝ) :=
-        Real.rpow_pos_of_pos (by positivity) _
-      exact mul_lt_mul_of_pos_left hanti (by positivity)
-  unfold heterogeneous.Erhg
-  simp only [sci_one]
+    rw [e, e]
+    have hX : 0 < (if (!sq) = true then (heterogeneous.vt_ruby d ((rhos - rhol) / rhol) nu 0.26 / ((Cst.gravity : ℝ) * d) ^ (0.5:ℝ)) ^ ((10:ℝ) / 3)
+         else (1 / heterogeneous.sqrtcx (heterogeneous.vt_ruby d ((rhos - rhol) / rhol) nu 0.26) d) ^ (3:ℝ)) := by
+      split_ifs
+      · exact Real.rpow_pos_of_pos (div_pos hvt (Real.rpow_pos_of_pos (by positivity) _)) _
+      · have hs := sqrtcx_pos _ d hvt hd
+        exact Real.rpow_pos_of_pos (by positivity) _
+    exact mul_lt_mul_of_pos_left hanti (by positivity)
+  rw [het_Erhg_canon, het_Erhg_canon]
   have hsum : heterogeneous.Shr v2 Dp d eps nu rhol rhos Cvs + heterogeneous.Srs v2 Dp d eps nu rhol rhos sq <
       heterogeneous.Shr v1 Dp d eps nu rhol rhos Cvs + heterogeneous.Srs v1 Dp d eps nu rhol rhos sq := by linarith
   split_ifs with hb
